@@ -1,2 +1,4 @@
 //! Materialisers: token lists / logical documents -> real bytes.
 pub mod zipw;
+pub mod cfb;
+pub mod biff;
